@@ -552,8 +552,24 @@ pub fn classify(m: &Mismatch, p0: &Snap, p1: &Snap, op: &str, committed: &BTreeS
                 // the entry itself or something in its subtree was gap / proposed: a detached
                 // proposal makes the pool remove and re-add (part of) the subtree
                 let subtree_readd = chain_op && d0.iter().any(|d| p0.closure(d, true).iter().any(|a| d0.contains(a) && p0.entries.get(a).map(|e| e.status != 0).unwrap_or(false)));
+                // descendants that are still pooled but no longer reachable: a committed transaction
+                // was their only link to this entry (PoolMap::remove_entry subtracts only itself);
+                // the surplus must be exactly their sum
+                let cut_off: Vec<&E> = d0
+                    .iter()
+                    .filter(|d| !d1.contains(*d))
+                    .filter_map(|d| p1.entries.get(d))
+                    .collect();
+                let cut_sum = cut_off.iter().fold((0u64, 0u64, 0u64), |a, e| (a.0 + 1, a.1 + e.size, a.2 + e.fee));
+                let surplus_is_cut_off = m.high
+                    && !cut_off.is_empty()
+                    && gone.iter().any(|g| committed.contains(*g))
+                    && m.got[0] >= m.want[0]
+                    && (m.got[0] - m.want[0], m.got[1].wrapping_sub(m.want[1]), m.got[3].wrapping_sub(m.want[3])) == cut_sum;
                 if !m.high && subtree_readd {
                     "descendant-readded-after-detached-proposal"
+                } else if surplus_is_cut_off {
+                    "descendant-kept-after-committed-intermediate-cut-the-link"
                 } else if gone.iter().any(|d| !committed.contains(*d) && expired.contains(*d)) {
                     "descendant-expired-while-ancestor-stays"
                 } else if gone.iter().any(|d| !committed.contains(*d)) {
